@@ -17,18 +17,23 @@ pub fn pki() -> &'static Pki {
         let server = rcgen::generate_simple_self_signed(vec!["localhost".to_string()]).unwrap();
         let server_der = server.serialize_der().unwrap();
         let server_key = server.serialize_private_key_der();
-        // a client certificate that is its own trust anchor (as in the repository's tests)
-        let mut params = rcgen::CertificateParams::new(vec!["client".to_string()]);
-        params.is_ca = rcgen::IsCa::Ca(rcgen::BasicConstraints::Unconstrained);
-        let client = rcgen::Certificate::from_params(params).unwrap();
-        let client_der = client.serialize_der().unwrap();
-        let client_key = client.serialize_private_key_der();
+        // a private CA (the server's trust anchor for client authentication) and a client leaf
+        let mut ca_params = rcgen::CertificateParams::new(vec![]);
+        ca_params.is_ca = rcgen::IsCa::Ca(rcgen::BasicConstraints::Unconstrained);
+        ca_params.distinguished_name.push(rcgen::DnType::CommonName, "verif test CA");
+        let ca = rcgen::Certificate::from_params(ca_params).unwrap();
+        let ca_der = ca.serialize_der().unwrap();
+        let mut leaf_params = rcgen::CertificateParams::new(vec!["client".to_string()]);
+        leaf_params.extended_key_usages = vec![rcgen::ExtendedKeyUsagePurpose::ClientAuth];
+        let leaf = rcgen::Certificate::from_params(leaf_params).unwrap();
+        let client_der = leaf.serialize_der_with_signer(&ca).unwrap();
+        let client_key = leaf.serialize_private_key_der();
         let plain = rustls::ServerConfig::builder()
             .with_no_client_auth()
             .with_single_cert(vec![CertificateDer::from(server_der.clone())], PrivateKeyDer::Pkcs8(PrivatePkcs8KeyDer::from(server_key.clone())))
             .unwrap();
         let mut roots = rustls::RootCertStore::empty();
-        roots.add(CertificateDer::from(client_der.clone())).unwrap();
+        roots.add(CertificateDer::from(ca_der)).unwrap();
         let verifier = rustls::server::WebPkiClientVerifier::builder(Arc::new(roots)).build().unwrap();
         let with_auth = rustls::ServerConfig::builder()
             .with_client_cert_verifier(verifier)
